@@ -802,6 +802,86 @@ theorem renew_handler_source (v : Variant) (env : Env) (i : GateIn) (old c : Cer
         · assumption
         · cases h
 
+/-- which entry of `apiRenew` a request ends up in -/
+theorem handleRenew_entry (v : Variant) (env : Env) (i : GateIn) (old c : Cert) (r : RenewReq)
+    (tc : Str → Bool × Bool × Bool × Bool × Bool × Bool)
+    (h : handleRenew v env i old r tc = .created c) :
+    ∃ e, apiRenew v env i old none e = .created c ∧ (e = .mtls → r.hasPeer = true) := by
+  unfold handleRenew getPeerCertificate at h
+  cases hp : r.hasPeer with
+  | true =>
+    simp only [hp, if_true] at h
+    exact ⟨.mtls, h, fun _ => rfl⟩
+  | false =>
+    simp only [hp, Bool.false_eq_true, if_false] at h
+    by_cases he : r.authorization.isEmpty = true
+    · simp [he] at h
+    · simp only [he] at h
+      cases ha : afterBearer r.authorization with
+      | none => simp [ha] at h
+      | some t =>
+        simp only [ha] at h
+        exact ⟨_, h, fun hh => by cases hh⟩
+
+/-- **served_window**: through the CA's own listener a request carrying a client certificate is
+    served only when crypto/tls verified it: right CA, inside its validity window. -/
+theorem served_window (v : Variant) (env : Env) (i : GateIn) (old : Cert) (ok nyv exp : Bool) (a : Str)
+    (tc : Str → Bool × Bool × Bool × Bool × Bool × Bool) (r : ApiResult)
+    (h : serveRenew v env i old (.cert ok nyv exp) a tc = some r) : ok = true ∧ nyv = false ∧ exp = false := by
+  unfold serveRenew tlsHandshake at h
+  cases ok <;> cases nyv <;> cases exp <;> simp at h ⊢
+
+/-- **gates_served**: the flat statement of the property at the CA process surface, with the
+    validity window of the mutual-TLS entry no longer a hypothesis but a consequence of the modelled
+    handshake: 201 from `POST /1.0/renew` ⇒ not revoked ∧ now ≥ notBefore ∧ (not expired ∨ allow after
+    expiry) ∧ (provisioner found ∧ renewal enabled ∨ nothing recorded). `hp`: the certificate shown in
+    the handshake is the one being renewed. -/
+theorem gates_served (v : Variant) (hv : v.noNoopWhenDbNames = true) (env : Env) (i : GateIn)
+    (old new : Cert) (p : Presented) (a : Str) (tc : Str → Bool × Bool × Bool × Bool × Bool × Bool)
+    (hnc : NoCustom i)
+    (hp : ∀ ok n e, p = .cert ok n e → n = i.notYetValid ∧ e = i.expired) :
+    serveRenew v env i old p a tc = some (.created new) →
+      i.revoked = .no ∧ i.notYetValid = false ∧ (i.expired = false ∨ AllowsAfterExpiry i) ∧
+      (RenewalEnabled i ∨ recordsNone i) := by
+  intro h
+  unfold serveRenew at h
+  cases hh : tlsHandshake p with
+  | none => simp [hh] at h
+  | some peer =>
+    simp only [hh, Option.map_some, Option.some.injEq] at h
+    obtain ⟨e, he, hm⟩ := handleRenew_entry v env i old new ⟨peer, a⟩ tc h
+    refine gates_api v hv env i old new none e hnc ?_ he
+    intro hmt
+    have hpeer : peer = true := hm hmt
+    subst hpeer
+    cases p with
+    | nothing => simp [tlsHandshake] at hh
+    | cert ok n ex =>
+      obtain ⟨h1, h2⟩ := hp ok n ex rfl
+      unfold tlsHandshake at hh
+      cases ok <;> cases n <;> cases ex <;> simp at hh
+      exact ⟨h1.symm, h2.symm⟩
+
+/-- the same for rekey: served ⇒ a verified certificate inside its validity window was shown -/
+theorem rekey_served (v : Variant) (env : Env) (i : GateIn) (old c : Cert) (p : Presented)
+    (b1 b2 b3 : Bool) (k : Str) (h : serveRekey v env i old p b1 b2 b3 k = some (.created c)) :
+    p = .cert true false false ∧ b3 = true ∧ c.publicKey = k ∧ decide v i = .val .allow := by
+  unfold serveRekey at h
+  cases hh : tlsHandshake p with
+  | none => simp [hh] at h
+  | some peer =>
+    simp only [hh, Option.map_some, Option.some.injEq] at h
+    obtain ⟨h1, -, -, h4, h5, h6⟩ := rekey_handler_pop v env i old c _ h
+    simp only at h1 h4 h5
+    subst h1
+    refine ⟨?_, h4, h5, h6⟩
+    cases p with
+    | nothing => simp [tlsHandshake] at hh
+    | cert ok n ex =>
+      unfold tlsHandshake at hh
+      cases ok <;> cases n <;> cases ex <;> simp at hh
+      rfl
+
 /-- The RA wrapping of a database record never changes the gate decision on /repo HEAD (it only
     lifts the audience comparison of a renew token, which is not one of the property's gates). -/
 theorem ra_flag_irrelevant (rev : Revoked) (p : Stored) (ext : ExtLookup) (nyv exp : Bool) :
@@ -1166,6 +1246,26 @@ theorem default_check_order (a : Bool) (i : GateIn) :
     defaultAuthorizeRenewChecks = ["IsDisableRenewal", "Before", "After", "AllowRenewalAfterExpiry"] := by
   refine ⟨by simp [defaultAuthorizeRenew], ?_, rfl⟩
   intro h; simp [defaultAuthorizeRenew, h]
+
+/-- every type that answers `AuthorizeRenew` (through its controller or through `base`) has its
+    claims converted in both directions: the regenerated conversion tables cover the regenerated
+    type tables -/
+theorem converted_types_cover_renew_types :
+    (∀ t ∈ ctlRenewTypes ++ baseRenewTypes, t ∈ typesConvertedToLinkedca) ∧
+    (∀ t ∈ ctlRenewTypes ++ baseRenewTypes, t ∈ typesConvertedToCertificates) ∧
+    typesConvertedToLinkedca.length = 11 := by
+  decide
+
+/-- in the regenerated shape of `claimsToLinkedca` each renewal flag is read from, defaulted into
+    and stored under its own name (no flag feeds another) -/
+theorem claims_flow_is_diagonal :
+    claimsToLinkedcaFlow.take 2 =
+      ["c.DisableRenewal!=nil=>disableRenewal=*c.DisableRenewal",
+       "c.AllowRenewalAfterExpiry!=nil=>allowRenewalAfterExpiry=*c.AllowRenewalAfterExpiry"] ∧
+    "lit:DisableRenewal:disableRenewal" ∈ claimsToLinkedcaFlow ∧
+    "lit:AllowRenewalAfterExpiry:allowRenewalAfterExpiry" ∈ claimsToLinkedcaFlow ∧
+    claimsToCertificatesFlow.take 2 = ["DisableRenewal:&c.DisableRenewal", "AllowRenewalAfterExpiry:&c.AllowRenewalAfterExpiry"] := by
+  decide
 
 /-- the two tables of provisioner types are disjoint -/
 theorem renew_types_disjoint : ∀ t ∈ ctlRenewTypes, t ∉ baseRenewTypes := by decide
